@@ -372,3 +372,20 @@ impl VerifAdmission {
 
     pub fn sketch(&self) -> VerifSketch { self.policy.verif_sketch() }
 }
+
+/// The crate's own rendering of the panics a caller can provoke, under the names the verification model gives the sites:
+/// (site, what the message starts with, what it ends with) — so that a harness need not know the message texts.
+pub fn panic_text_patterns() -> Vec<(&'static str, String, String)> {
+    use crate::cache::errors::Errors;
+    const MARKER: &str = "\u{1}";
+    let with_operation = Errors::KeyWeightGtZero(MARKER).to_string();
+    let (before, after) = match with_operation.split_once(MARKER) {
+        Some((before, after)) => (before.to_string(), after.to_string()),
+        None => (with_operation.clone(), String::new()),
+    };
+    vec![
+        ("weight-not-positive", before, after),
+        ("weight-not-positive", Errors::WeightCalculationGtZero.to_string(), String::new()),
+        ("upsert-value-missing", Errors::PutOrUpdateValueMissing.to_string(), String::new()),
+    ]
+}
